@@ -20,7 +20,10 @@ from xsdata.formats.dataclass.parsers.handlers import XmlEventHandler
 from xsdata.formats.dataclass.serializers import DictEncoder, JsonSerializer, XmlSerializer
 
 import impl_c14 as base
-from sched_trace import LineScheduler, MarkError, SchedulerTimeout, locate
+import random
+
+import xsdata.formats.dataclass.models.elements as elements_module
+from sched_trace import LineScheduler, MarkError, SchedulerTimeout, locate, locate_all, locate_mutators
 
 
 class Shared:
@@ -67,6 +70,61 @@ def main():
         except SchedulerTimeout as e:
             results, log, status = [None] * len(fns), list(sched.log), "timeout: " + str(e)
         out.append({"results": results, "solo": solo, "log": [list(x) for x in log], "status": status})
+    # forced yield points on every line of the XmlMeta / XmlVar methods (models/elements.py) and on the marked
+    # lines of context.py, random schedules, no model: the oracle is the solo result
+    free = []
+    if inp.get("free_runs"):
+        files = {elements_module.__file__: locate_all(elements_module.__file__)}
+        if table is not None:
+            files[path] = table
+        for run in inp["free_runs"]:
+            solo = [base.run_op(prepared(ops, run["warm"]), ops[i]) for i in run["threads"]]
+            inst = prepared(ops, run["warm"])
+            sched = LineScheduler(files, step_timeout=inp.get("step_timeout", 10.0))
+            fns = [(lambda i=i: base.run_op(inst, ops[i])) for i in run["threads"]]
+            try:
+                results, steps = sched.run_random(fns, random.Random(run["seed"]))
+                status = "ok"
+            except SchedulerTimeout as e:
+                results, steps, status = [None] * len(fns), len(sched.log), "timeout: " + str(e)
+            free.append({"results": results, "solo": solo, "steps": steps, "status": status})
+    # systematic exploration: yield points on the lines of the self-mutating methods of XmlMeta / XmlVar only (few
+    # steps), two threads, every schedule "A runs k1 steps, B runs k2 steps, [A one step,] B resp. A completes"
+    systematic, mutators = [], []
+    if inp.get("sys_runs"):
+        mtable, mutators = locate_mutators(elements_module.__file__)
+        files = {elements_module.__file__: mtable}
+        for run in inp["sys_runs"]:
+            a, b = run["threads"]
+            solo = [base.run_op(prepared(ops, run["warm"]), ops[i]) for i in (a, b)]
+
+            def one(schedule):
+                inst = prepared(ops, run["warm"])
+                sched = LineScheduler(files, step_timeout=inp.get("step_timeout", 10.0))
+                fns = [(lambda i=i: base.run_op(inst, ops[i])) for i in (a, b)]
+                return sched.run(fns, schedule)
+
+            rec = {"solo": solo, "explored": 0, "bad": [], "status": "ok", "steps": [0, 0]}
+            try:
+                _, log = one([])
+                na, nb = sum(1 for t, _ in log if t == 0), sum(1 for t, _ in log if t == 1)
+                rec["steps"] = [na, nb]
+                scheds = []
+                for k1 in range(0, na + 1):
+                    for k2 in range(1, nb + 1):
+                        scheds.append([0] * k1 + [1] * k2)                            # then A completes, then B
+                        scheds.append([0] * k1 + [1] * k2 + [0] + [1] * nb)           # A one step, B completes, then A
+                rng = random.Random(run["seed"])
+                if len(scheds) > run["max"]:
+                    scheds = rng.sample(scheds, run["max"])
+                for sc in scheds:
+                    results, _ = one(sc)
+                    rec["explored"] += 1
+                    if results != solo and len(rec["bad"]) < 3:
+                        rec["bad"].append({"schedule": sc, "results": results})
+            except SchedulerTimeout as e:
+                rec["status"] = "timeout: " + str(e)
+            systematic.append(rec)
     stress = None
     if inp.get("stress"):
         st = inp["stress"]
@@ -98,7 +156,8 @@ def main():
         finally:
             sys.setswitchinterval(old)
         stress["mismatches"] = stress["cold"]
-    res = {"ambient": wd["ambient"], "order": wd["order"], "modules0": wd["modules0"], "runs": out, "stress": stress}
+    res = {"ambient": wd["ambient"], "order": wd["order"], "modules0": wd["modules0"], "runs": out, "stress": stress,
+           "free": free, "systematic": systematic, "mutators": mutators}
     if mark_error:
         res["mark_error"] = mark_error
     json.dump(res, sys.stdout)
